@@ -2,29 +2,115 @@ package kv
 
 // White-box executor for C15 (injected with `go test -overlay`): the empty-ring error path of
 // clusterStore, which the public constructor cannot reach (NewStore exits on a zero total weight).
+// EVERY method of the Store interface must answer ErrNoRedisNode over an empty ring — never panic,
+// never succeed.  ("get"/"set"/"del"/"incr" keep their own fields; "all" lists what else failed.)
 
 import (
 	"encoding/json"
 	"errors"
+	"fmt"
 	"os"
 	"strings"
 	"testing"
 
 	"github.com/zeromicro/go-zero/core/hash"
+	"github.com/zeromicro/go-zero/core/stores/redis"
 )
 
 func TestVerifC15Empty(t *testing.T) {
 	cs := clusterStore{dispatcher: hash.NewConsistentHash()}
+	var st Store = cs
 	_, e1 := cs.Get("k")
 	e2 := cs.Set("k", "v")
 	n, e3 := cs.Del("a", "b")
 	_, e4 := cs.Incr("k")
+
+	e := func(_ any, err error) error { return err }
+	e3r := func(_ any, _ any, err error) error { return err }
+	calls := map[string]func() error{
+		"Decr":                               func() error { return e(st.Decr("k")) },
+		"Decrby":                             func() error { return e(st.Decrby("k", 1)) },
+		"Eval":                               func() error { return e(st.Eval("return 1", "k")) },
+		"Exists":                             func() error { return e(st.Exists("k")) },
+		"Expire":                             func() error { return st.Expire("k", 1) },
+		"Expireat":                           func() error { return st.Expireat("k", 1) },
+		"GetSet":                             func() error { return e(st.GetSet("k", "v")) },
+		"Hdel":                               func() error { return e(st.Hdel("k", "f")) },
+		"Hexists":                            func() error { return e(st.Hexists("k", "f")) },
+		"Hget":                               func() error { return e(st.Hget("k", "f")) },
+		"Hgetall":                            func() error { return e(st.Hgetall("k")) },
+		"Hincrby":                            func() error { return e(st.Hincrby("k", "f", 1)) },
+		"Hkeys":                              func() error { return e(st.Hkeys("k")) },
+		"Hlen":                               func() error { return e(st.Hlen("k")) },
+		"Hmget":                              func() error { return e(st.Hmget("k", "f")) },
+		"Hset":                               func() error { return st.Hset("k", "f", "v") },
+		"Hsetnx":                             func() error { return e(st.Hsetnx("k", "f", "v")) },
+		"Hmset":                              func() error { return st.Hmset("k", map[string]string{"a": "b"}) },
+		"Hvals":                              func() error { return e(st.Hvals("k")) },
+		"Incrby":                             func() error { return e(st.Incrby("k", 1)) },
+		"Llen":                               func() error { return e(st.Llen("k")) },
+		"Lindex":                             func() error { return e(st.Lindex("k", 0)) },
+		"Lpop":                               func() error { return e(st.Lpop("k")) },
+		"Lpush":                              func() error { return e(st.Lpush("k", "v")) },
+		"Lrange":                             func() error { return e(st.Lrange("k", 0, 1)) },
+		"Lrem":                               func() error { return e(st.Lrem("k", 1, "v")) },
+		"Persist":                            func() error { return e(st.Persist("k")) },
+		"Pfadd":                              func() error { return e(st.Pfadd("k", "v")) },
+		"Pfcount":                            func() error { return e(st.Pfcount("k")) },
+		"Rpush":                              func() error { return e(st.Rpush("k", "v")) },
+		"Sadd":                               func() error { return e(st.Sadd("k", "v")) },
+		"Scard":                              func() error { return e(st.Scard("k")) },
+		"Setex":                              func() error { return st.Setex("k", "v", 1) },
+		"Setnx":                              func() error { return e(st.Setnx("k", "v")) },
+		"SetnxEx":                            func() error { return e(st.SetnxEx("k", "v", 1)) },
+		"Sismember":                          func() error { return e(st.Sismember("k", "v")) },
+		"Smembers":                           func() error { return e(st.Smembers("k")) },
+		"Spop":                               func() error { return e(st.Spop("k")) },
+		"Srandmember":                        func() error { return e(st.Srandmember("k", 1)) },
+		"Srem":                               func() error { return e(st.Srem("k", "v")) },
+		"Sscan":                              func() error { return e3r(st.Sscan("k", 0, "*", 1)) },
+		"Ttl":                                func() error { return e(st.Ttl("k")) },
+		"Zadd":                               func() error { return e(st.Zadd("k", 1, "v")) },
+		"ZaddFloat":                          func() error { return e(st.ZaddFloat("k", 1.5, "v")) },
+		"Zadds":                              func() error { return e(st.Zadds("k", redis.Pair{Key: "a", Score: 1})) },
+		"Zcard":                              func() error { return e(st.Zcard("k")) },
+		"Zcount":                             func() error { return e(st.Zcount("k", 0, 1)) },
+		"Zincrby":                            func() error { return e(st.Zincrby("k", 1, "v")) },
+		"Zrank":                              func() error { return e(st.Zrank("k", "v")) },
+		"Zrange":                             func() error { return e(st.Zrange("k", 0, 1)) },
+		"ZrangeWithScores":                   func() error { return e(st.ZrangeWithScores("k", 0, 1)) },
+		"ZrangebyscoreWithScores":            func() error { return e(st.ZrangebyscoreWithScores("k", 0, 1)) },
+		"ZrangebyscoreWithScoresAndLimit":    func() error { return e(st.ZrangebyscoreWithScoresAndLimit("k", 0, 1, 0, 1)) },
+		"Zrem":                               func() error { return e(st.Zrem("k", "v")) },
+		"Zremrangebyrank":                    func() error { return e(st.Zremrangebyrank("k", 0, 1)) },
+		"Zremrangebyscore":                   func() error { return e(st.Zremrangebyscore("k", 0, 1)) },
+		"Zrevrange":                          func() error { return e(st.Zrevrange("k", 0, 1)) },
+		"ZrevrangebyscoreWithScores":         func() error { return e(st.ZrevrangebyscoreWithScores("k", 0, 1)) },
+		"ZrevrangebyscoreWithScoresAndLimit": func() error { return e(st.ZrevrangebyscoreWithScoresAndLimit("k", 0, 1, 0, 1)) },
+		"Zrevrank":                           func() error { return e(st.Zrevrank("k", "v")) },
+		"Zscore":                             func() error { return e(st.Zscore("k", "v")) },
+	}
+	bad := []string{}
+	for name, f := range calls {
+		func() {
+			defer func() {
+				if r := recover(); r != nil {
+					bad = append(bad, fmt.Sprintf("%s: panic %v", name, r))
+				}
+			}()
+			if err := f(); !errors.Is(err, ErrNoRedisNode) {
+				bad = append(bad, fmt.Sprintf("%s: %v", name, err))
+			}
+		}()
+	}
 	out := map[string]any{
-		"pkg": "kv",
-		"get": errors.Is(e1, ErrNoRedisNode),
-		"set": errors.Is(e2, ErrNoRedisNode),
-		"del": n == 0 && e3 != nil && strings.Contains(e3.Error(), ErrNoRedisNode.Error()),
+		"pkg":  "kv",
+		"get":  errors.Is(e1, ErrNoRedisNode),
+		"set":  errors.Is(e2, ErrNoRedisNode),
+		"del":  n == 0 && e3 != nil && strings.Contains(e3.Error(), ErrNoRedisNode.Error()),
 		"incr": errors.Is(e4, ErrNoRedisNode),
+		"all":  len(bad) == 0,
+		"bad":  bad,
 	}
 	b, _ := json.Marshal(out)
 	if err := os.WriteFile(os.Getenv("VERIF_OUT"), append(b, '\n'), 0o644); err != nil {
